@@ -131,6 +131,13 @@ def gen_num(r, nonneg=False):
 def gen_plist_value(r, depth=0, binary=True):
     import datetime
 
+    if depth == 0 and r.random() < 0.06:
+        # a value buried under dozens of containers (lib data written by scripts can be that deep; the writer
+        # indents, and wraps base64 data to the width that is left)
+        v = r.choice([bytes(r.randrange(256) for _ in range(r.randint(1, 60))), gen_text(r) or "x", 1.5, [b"\x00\x01", "y"]]) if binary else (gen_text(r) or "x")
+        for _ in range(r.randint(30, 60)):
+            v = [v] if r.random() < 0.5 else {gen_key(r) or "k": v}
+        return v
     k = r.random()
     if depth > 3 or k < 0.55:
         c = r.randrange(8)
